@@ -15,7 +15,7 @@ PID = "C54"
 LEVEL = "proof"
 LEAN = ["SaVerif.Props.C54"]
 META = {
-    "text": "Lean theorems, all for arbitrary operation sequences / arbitrary arguments: OrderedSet — the representation invariant (_list duplicate-free and equal as a set to the builtin-set part) is preserved by every method over any number of live sets with arguments of every kind (orderedset_inv), every method's iteration order equals the insertion-ordered-set reference (survivors keep their order, new elements by first occurrence: *_spec, orderedset_order_is_first_insertion) and results are the mathematical set operations (*_mem); IdentitySet — no id held twice after any sequence, each operation is the set operation on ids, comparisons decide the set relations, order is first insertion; immutabledict — union/merge_with contents and key order equal the plain left-to-right merge whichever object (self / an argument / a fresh dict) is returned, lookup gives the last defining argument; LRUCache — one entry per key and unique counters after any history, size <= capacity*(1+threshold) after every __setitem__, the _manage_size loop terminates after one pass, evicted entries are strictly older than retained ones, the key just set survives, get/[] return only the value most recently stored under that key. The four models are hand transcriptions tied to the pure-Python source by differential runs (random operation sequences plus exhaustive small scope, every live object observed after every step) and an independent Python reference oracle checks the property itself on the real objects.",
+    "text": "Lean theorems, all for arbitrary operation sequences / arbitrary arguments: OrderedSet — the representation invariant (_list duplicate-free and equal as a set to the builtin-set part) is preserved by every method over any number of live sets with arguments of every kind (orderedset_inv), the iteration order of every live set after any history equals the insertion-ordered-set reference run (orderedset_refines_reference), every method's iteration order equals the insertion-ordered-set reference (survivors keep their order, new elements by first occurrence: *_spec, orderedset_order_is_first_insertion) and results are the mathematical set operations (*_mem); IdentitySet — no id held twice after any sequence, each operation is the set operation on ids, comparisons decide the set relations, order is first insertion; immutabledict — union/merge_with contents and key order equal the plain left-to-right merge whichever object (self / an argument / a fresh dict) is returned, lookup gives the last defining argument; LRUCache — one entry per key and unique counters after any history, size <= capacity*(1+threshold) after every __setitem__, the _manage_size loop terminates after one pass, evicted entries are strictly older than retained ones, the key just set survives, get/[] return only the value most recently stored under that key. The four models are hand transcriptions tied to the pure-Python source by differential runs (random operation sequences plus exhaustive small scope, every live object observed after every step) and an independent Python reference oracle checks the property itself on the real objects.",
     "note": "Trusted / modelled-not-verified: Lean kernel; builtin set/dict/list semantics (modelled as lists, validated by the correspondence); stdlib MutableMapping mixins used by LRUCache; the correspondence harness (differential). LRUCache threshold restricted to non-negative dyadic rationals, single-threaded (mutex always acquired, re-entrant size_alert not modelled). No _partial theorems: F9 (symmetric_difference_update duplicates) and F18 (IdentitySet.__ixor__ no-op) are fixed in /repo; symdiff_update_nodedup_counterexample proves the pre-fix variant violates the invariant.",
     "technique": "Lean 4 invariant/refinement proofs by induction over operation sequences + differential correspondence with the Python implementation + reference-semantics oracle",
     "design_ref": "DESIGN.md §3 C54",
@@ -183,6 +183,10 @@ def run(ctx, deep=False):
             ctx.sample({"lru_cfg": cfg, "lru_ops": ops, "trace": trace})
     if ctx.driver_ok():
         ctx.correspond("corr/c54:LRUCache-vs-Model.Lru", cases, impl_out, ctx.driver(reqs))
+    # ------------------------------------------------------------ small helpers (oracle only)
+    for key, case, detail in L.misc_helper_checks(ctx.rng, 1500 if thorough else 300):
+        ctx.violation(key, case, detail)
+    ctx.count("misc.helper-rounds", 1500 if thorough else 300)
     ctx.exhaustive = thorough
 
 
@@ -216,6 +220,11 @@ def replay(ctx, obj):
     elif kind == "idset-foreign":
         fails = L.is_foreign_checks(ns)
         trace, req, fail = [], [], (fails[0] if fails else None)
+    elif kind == "misc":
+        import random
+
+        fails = [f for f in L.misc_helper_checks(random.Random(0), 300) if f[1]["name"] == c["name"]]
+        trace, req, fail = [], [], ((fails[0][0], fails[0][2]) if fails else None)
     elif kind == "unique_list":
         got = ns.unique_list(list(c["seq"]))
         trace, req, fail = [repr(got)], [], (None if got == L.ref_first_occ(c["seq"]) else ("unique-list-first-occurrence", repr(got)))
